@@ -91,7 +91,7 @@ theorem retries_until_success (fails : List (Exc × Nat)) (h : ∀ p ∈ fails, 
 /-! ## non-vacuity: concrete exceptions in every class, the overlaps the branch order decides, and runs of the loop -/
 
 def plain : Desc :=
-  ⟨none, none, false, false, false, false, false, false, false, false, false, none, false, false, false, false, none⟩
+  ⟨none, none, false, false, false, false, false, false, false, none, false, none, false, false, false, false, none⟩
 
 /-- `e` under `n` layers of `raise RuntimeError(...) from inner` -/
 def wrapped : Nat → Exc → Exc
@@ -122,6 +122,11 @@ def httpx403RateLimit : Exc := .mk { plain with aiohttpStatus := some 403, httpx
 def httpx400RetryOnce : Exc := .mk { plain with aiohttpStatus := some 400, httpxStatus := some 400, bodyRetryOnce := true } .nil .nil
 /-- `aiohttp.ClientResponseError(status=429, headers={'Retry-After': '300'})`: rate limit; the header changes nothing -/
 def tooManyRetryAfter300 : Exc := .mk { plain with aiohttpStatus := some 429, retryAfter := some 300 } .nil .nil
+/-- `aiohttp.ClientPayloadError()` — no message at all — and `aiohttp.ClientPayloadError(None)` -/
+def payloadNoArgs : Exc := .mk { plain with payload := some .noArgs } .nil .nil
+def payloadNotStr : Exc := .mk { plain with payload := some .notStr } .nil .nil
+/-- `aiohttp.ClientPayloadError('Response payload is not completed')` -/
+def payloadIncomplete : Exc := .mk { plain with payload := some (.text true) } .nil .nil
 /-- `ValueError('x')` -/
 def valueError : Exc := .mk plain .nil .nil
 /-- `RuntimeError('wrapped')` raised `from` `OSError(EPIPE)`: transient through `__cause__` -/
@@ -153,6 +158,10 @@ example : retryTransientErrors (List.replicate 3 (.fail tooManyRetryAfter300 999
 -- a timeout under 8 layers of `raise … from` is still transient: retried (any depth: `cause_chain_followed_to_any_depth`)
 example : retryTransientErrors [.fail (wrapped 8 (.mk { plain with osErrno := some (some 110) } .nil .nil)) 0, .ok 1]
     = .returned 1 2 [1000] := by decide
+-- a ClientPayloadError without a (string) message is an ordinary permanent error: classified, and raised AS ITSELF by the first
+-- call (before the repair 4a545e7b9 the classifier crashed with IndexError / TypeError on it); with the marker text it is transient
+example : isTransient payloadNoArgs = false ∧ isTransient payloadNotStr = false ∧ isTransient payloadIncomplete = true := by decide
+example : retryTransientErrors [.fail payloadNoArgs 0, .ok 1] = .raised payloadNoArgs 1 [] := by decide
 -- a permanent error is raised by the first call, no sleep
 example : retryTransientErrors [.fail valueError 3, .ok 1] = .raised valueError 1 [] := by decide
 -- jitter: draw r ↦ r % (ceiling/2 + 1); tries = 1: ceiling 2000, delay in [1000, 2000]
